@@ -249,6 +249,11 @@ def compare(ctx, chk, pid, cfg, tier):
     fsm = get_fsm(ctx, cfg)
     inv = state_invariant(fsm)
     chk.note("%s: reachable-state invariant fragment_number <= 254 %s" % (cfg, "proved inductive on the extracted relation; comparison restricted to it" if inv else "NOT proved; comparing on all of 0..255"))
+    if pid == "C05" and cfg != "none":
+        # with an allocator nothing limits the size of a group: a size-dependent rejection breaks
+        # "reassemble to exactly the unfragmented message" for long payloads
+        lim = sorted(set(str(c.capacity[0][1]) if c.capacity[0][0] == "size_limit" else "capacity" for c in fsm.cells if c.capacity))
+        chk.ob(not lim, "C05/size-limit/%s" % ",".join(lim), "reassembly [%s]: a fragment is rejected because the reassembled payload would exceed %s bytes; in-order groups of any size must complete in this configuration" % (cfg, ",".join(lim)))
     groups = {}
     for c in fsm.cells:
         groups.setdefault(shape_key(c), []).append(c)
